@@ -1294,3 +1294,42 @@ def gen_unique():
 
 
 GENERATORS = GENERATORS + (('Unique', gen_unique),)
+
+
+# ---------------------------------------------------------------------------------------------------------------------
+
+def gen_relations_init():
+    """`junctors.Relations.__init__`: which unary class feeds the pairs, the pair size, what `include_unary` adds, what is sorted by what."""
+    tree = _src('junctors.py')
+    m = _method(tree, 'Relations', '__init__')
+    if [a.arg for a in m.args.args] != ['self', 'items', 'booleans', 'include_unary']:
+        raise Decline('Relations.__init__: signature changed')
+    st = [ast.unparse(s) for s in _nodoc(m.body)]
+    if len(st) != 6:
+        raise Decline('Relations.__init__: expected six statements, got %d' % len(st))
+    if st[0] != 'unary = [Relation(i, None, bools) for i, bools in zip(items, booleans)]':
+        raise Decline('Relations.__init__: unary changed: %s' % st[0])
+    import re
+    mt = re.fullmatch(r'combos = combinations\(\(\(u\.left, u\.bools\) for u in unary if u\.__class__ is (\w+)\), (\d+)\)', st[1])
+    if not mt:
+        raise Decline('Relations.__init__: combos changed: %s' % st[1])
+    cls_name, size = mt.group(1), int(mt.group(2))
+    if st[2] != 'binary = (Relation(l, r, zip(lbools, rbools)) for (l, lbools), (r, rbools) in combos)':
+        raise Decline('Relations.__init__: binary changed: %s' % st[2])
+    if st[3] != 'members = chain(unary, binary) if include_unary else binary':
+        raise Decline('Relations.__init__: members changed: %s' % st[3])
+    if st[4] != 'super().__init__(members)':
+        raise Decline('Relations.__init__: %s' % st[4])
+    mt = re.fullmatch(r'self\.sort\(key=lambda r: r\.(\w+)\)', st[5])
+    if not mt:
+        raise Decline('Relations.__init__: the final sort changed: %s' % st[5])
+    return '\n'.join([
+        '/- GENERATED by harness/extract2.py from Relations.__init__ in concepts/junctors.py — do not edit.',
+        '   (class of the unary relations whose items are paired, pair size, attribute the whole list is finally sorted by;',
+        '   `include_unary` chains the unary relations in front of the binary ones) -/',
+        'namespace FCA.Generated', '',
+        'def relations_init_cfg : String × Nat × String := ("%s", %d, "%s")' % (cls_name, size, mt.group(1)), '',
+        'end FCA.Generated', ''])
+
+
+GENERATORS = GENERATORS + (('RelationsInit', gen_relations_init),)
